@@ -8,6 +8,7 @@ mod interp;
 mod other;
 mod prng;
 mod q;
+mod tracked;
 mod val;
 
 use std::io::Write;
